@@ -19,7 +19,7 @@
     token lists (all five observables) in both modes, the error/no-error verdict and the position
     of the first error.  Messages, the number of errors and later error positions are not compared. *)
 From Coq Require Import List NArith ZArith Bool String.
-From ApiFu Require Import Base.Sexp Lex.Utf8 Lex.LexModel Lex.LexSpec.
+From ApiFu Require Import Base.Sexp Lex.Utf8 Lex.LexModel Lex.LexSpec Lex.LexRel.
 Import ListNotations.
 Open Scope string_scope.
 
@@ -54,19 +54,6 @@ Definition dec_obs (l : list sexp) : option (list otok * list (Z * Z)) :=
 
 Definition otok_of_token (t : token) : otok :=
   mkOtok (tok_code (t_kind t)) (t_lit t) (t_line t) (t_col t) (t_value t).
-
-Definition tok_of_kind (k : kind) : tok :=
-  match k with
-  | KPunctuator => PUNCTUATOR | KName => NAME | KInt => INT_VALUE | KFloat => FLOAT_VALUE
-  | KString => STRING_VALUE | KBOM => UNICODE_BOM | KWhiteSpace => WHITE_SPACE
-  | KLineTerminator => LINE_TERMINATOR | KComment => COMMENT | KComma => COMMA
-  end.
-
-(** the implementation-level token the reference token stands for *)
-Definition token_of_stoken (t : stoken) : token :=
-  {| t_kind := tok_of_kind (st_kind t); t_off := st_off t; t_len := st_len t;
-     t_line := st_line t; t_col := st_col t;
-     t_lit := utf8_encode_all (st_text t); t_value := utf8_encode_all (st_value t) |}.
 
 Definition otok_of_stoken (t : stoken) : otok := otok_of_token (token_of_stoken t).
 
